@@ -878,11 +878,11 @@ func recursionBody(tok int) (string, error) {
 		return "plain text", nil
 	case tok >= 2 && tok <= 4: // include t_j
 		return fmt.Sprintf(`[{{ include "t%d" . }}]`, tok-1), nil
-	case tok >= 5 && tok <= 7: // tpl of a literal that includes t_j
-		return fmt.Sprintf("({{ tpl \"{{ include \\\"t%d\\\" . }}\" . }})", tok-4), nil
-	case tok >= 8 && tok <= 10: // tpl of a value that includes t_j
-		return fmt.Sprintf("<{{ tpl .Values.call%d . }}>", tok-7), nil
-	case tok == 11: // a value that runs tpl on itself
+	case tok == 5 || tok == 7: // tpl of a literal that includes t_1 / t_2
+		return fmt.Sprintf("({{ tpl \"{{ include \\\"t%d\\\" . }}\" . }})", (tok-3)/2), nil
+	case tok == 6 || tok == 8: // tpl of a value that includes t_1 / t_2
+		return fmt.Sprintf("<{{ tpl .Values.call%d . }}>", (tok-4)/2), nil
+	case tok == 9: // not in the enumerated alphabet (unbounded on the unchanged code): a value that runs tpl on itself
 		return "{{ tpl .Values.selfref . }}", nil
 	}
 	return "", fmt.Errorf("token %d outside the recursion alphabet", tok)
